@@ -197,8 +197,7 @@ var sanitizers = map[string]map[string]string{
 // exactly these patterns), whatever the variable is called
 var sanitizerPatterns = map[string]string{
 	`(password=).*?(&|$)`: "passRE",
-	`<key>.*</key>`:       "keyRE",
-	`[?]key=.*?&`:         "apiRE",
+	`(?s)<key>.*</key>`:   "keyRE",
 }
 
 // regexpOf: variable object -> pattern literal of `regexp.MustCompile(<literal>)` it is defined with
